@@ -823,3 +823,14 @@ func init() {
 	intrinsics["strconv.FormatInt"] = fmtInt(true)
 	intrinsics["strconv.FormatUint"] = fmtInt(false)
 }
+
+func init() {
+	intrinsics["time.runtimeNano"] = func(fr *frame, args []value) value { return mkBV(64, 1) }
+	noop := func(fr *frame, args []value) value { return zeroResult(fr.fn) }
+	for _, n := range []string{"internal/godebug.setUpdate", "internal/godebug.registerMetric", "internal/godebug.setNewIncNonDefault",
+		"(*internal/godebug.Setting).IncNonDefault", "sync.runtime_registerPoolCleanup", "sync.runtime_notifyListCheck",
+		"sync.throw", "sync.fatal", "internal/poll.runtime_pollServerInit", "runtime.SetFinalizer"} {
+		intrinsics[n] = noop
+	}
+	intrinsics["(*internal/godebug.Setting).Value"] = func(fr *frame, args []value) value { return mkStr("") }
+}
